@@ -384,15 +384,15 @@ theorem pl_vssRecv1_run (st0 : VssSt) (I : Inbox) (A : List Int) (σ τ : Int)
     exact pl_popP _ _ τ [] (by simp [hdp])
   have ha1 : absGe σ G.q = false := by simp [absGe, hσ]
   have ha2 : absGe τ G.q = false := by simp [absGe, hτ]
-  have hrhs : vssRhs G (st.i + 1) 0 A 1 = .ok (false, r) := by
-    rw [pl_vssRhs _ A hAel, e3, hprod]
+  have hrhs : vssRhs G (st0.i + 1) 0 A 1 = .ok (false, r) := by
+    rw [pl_vssRhs _ A hAel, hprod]
     rfl
   unfold vssRecv1
-  simp only [hpw, hread, hp1, hp2, ha1, ha2, hAlen, Bool.false_eq_true, if_false, e1, e2, e3, e4, e5,
+  simp only [hpw, hread, hp1, hp2, ha1, ha2, hAlen]
+  simp only [Bool.false_eq_true, if_false, e1, e2, e3, e4, e5,
     hsfb, Nat.sub_self, List.replicate_zero, List.append_nil, hped, hrhs, bind, Except.bind, pure,
     Except.pure, Bool.false_and, Bool.false_or, Bool.or_false, Nat.add_zero]
-  trace_state
-  sorry
+  exact ⟨_, _, rfl, rfl, rfl, rfl, rfl⟩
 
 /-- completeness of `Share` (receiver, first step): the commitments and the share of an honest
     dealer raise no complaint; the receiver stores the share and broadcasts only the end marker -/
@@ -404,7 +404,29 @@ theorem vssRecv1_honest_dealer (hG : ValidGrp G) (st : VssSt) (I : Inbox) (a b A
     ∃ st' I', vssRecv1 G st I = .ok (st', I', [Op.bc none (st.n : Int)], .run) ∧
       st'.sigma_i = evalShare G.q a (st.i + 1) ∧ st'.tau_i = evalShare G.q b (st.i + 1) ∧
       st'.A = A ∧ st'.cc = 0 := by
-  sorry
+  have hq : 0 < G.q := hG.vg.q_pos
+  have hab : a.length = b.length := hlen.trans hlenb.symm
+  obtain ⟨C, hC, hCl, hCv⟩ := commitList_val hG a b hab ha hb
+  rw [hA] at hC
+  injection hC with hC
+  subst hC
+  have hAel : ∀ c ∈ A, Dkg.checkElement G c = true := by
+    intro c hc
+    obtain ⟨k, hk, rfl⟩ := List.getElem_of_mem hc
+    obtain ⟨h0, h1, hv⟩ := hCv k (by omega)
+    rw [List.getD_eq_getElem _ _ hk] at h0 h1 hv
+    exact pl_checkElement_of_val hG _ _ _ h0 h1 hv
+  obtain ⟨ga, l, r, hped, hprod, hlr⟩ := share_check hG a b hab ha hb A hA (st.i + 1)
+  have hs := (evalShare_val G hq a (st.i + 1)).2
+  have ht := (evalShare_val G hq b (st.i + 1)).2
+  obtain ⟨st', I', hrun, h1, h2, h3, h4⟩ := pl_vssRecv1_run st I A _ _ (by omega) hAel
+    (pl_natAbs_lt hs) (pl_natAbs_lt ht) hsfb hI ga l r hped hprod
+  have hb : (l != r) = false := by simp [hlr]
+  refine ⟨st', I', ?_, h1, h2, h3, ?_⟩
+  · rw [hrun, hb]
+    rfl
+  · rw [h4, hb]
+    rfl
 
 /-- soundness of the receiver's check, first step: a pair in range that does not open the received
     commitments (all of them group elements) makes the receiver broadcast a complaint against the
@@ -416,7 +438,21 @@ theorem vssRecv1_complains (hG : ValidGrp G) (st : VssSt) (I : Inbox) (A : List 
     (hbad : cp G G.g ^ σ * cp G G.h ^ τ ≠ powProdFrom (st.i + 1) 0 (A.map (cp G))) :
     ∃ st' I', vssRecv1 G st I =
       .ok (st', I', [Op.bc none (st.dealer : Int), Op.bc none (st.n : Int)], .run) ∧ st'.cc = 1 := by
-  sorry
+  obtain ⟨ga, l, hped, -, -, hl0, hl1, -, hlv⟩ := pedS_val hG σ τ hσ hτ
+  obtain ⟨r, hprod, hr0, hr1, hrv⟩ := commitProd_val hG (st.i + 1) A
+    (fun c hc => pl_checkElement_unit hG c (hAel c hc))
+  have hne : l ≠ r := by
+    intro h
+    apply hbad
+    rw [← hlv, ← hrv, h]
+  obtain ⟨st', I', hrun, -, -, -, h4⟩ := pl_vssRecv1_run st I A σ τ hAlen hAel hσ hτ hsfb hI
+    ga l r hped hprod
+  have hb : (l != r) = true := by simpa using hne
+  refine ⟨st', I', ?_, ?_⟩
+  · rw [hrun, hb]
+    rfl
+  · rw [h4, hb]
+    rfl
 
 theorem pl_vssAnswers_ops (q : Int) (st : VssSt) (hsfb : st.sfb = false) (l : List Nat) (s : VssSt)
     (ops : List Op) :
